@@ -621,6 +621,9 @@ class Exec:
             if op == 'Mult':
                 return vint(a.t * b.t)
             if op == 'FloorDiv':
+                # z3's integer division is the floor only for a positive divisor; nothing else is modelled
+                if not (z3.is_int_value(b.t) and b.t.as_long() > 0):
+                    raise Unsupported('floor division by something other than a positive literal')
                 return vint(a.t / b.t)
         ra = self.coerce(a, 'real', st)
         rb = self.coerce(b, 'real', st)
